@@ -248,6 +248,95 @@ def h_same_request_again(ctx):
     ctx.covered("resubmitted")
 
 
+def h_put_before_last_pdus_retrieved(ctx):
+    """the handler is idle again in the very call that queued the last PDU of the previous transaction; the user
+    hands in the next put request BEFORE retrieving it: nothing is lost, both streams come out in order"""
+    w = World(ctx)
+    ids = Ids(2, 2)
+    L = 8
+    rig = SrcRig(w, ids, mode=UNACK, closure=False, seg_len=L, max_packet_len=64)
+    S = ctx.int("S", 0, 2 * L)
+    rig.fs.add_source_file("/src/file.bin", S)
+    o = rig.put()
+    ctx.prop("accepted", o.exc is None and o.ret is True)
+    first = []
+    for _ in range(6):
+        o = rig.sm(drain=False)  # state machine call without retrieving what it queued
+        ctx.prop("no_exception", o.exc is None, lambda: {"sig": rigs.exc_sig(o.exc)})
+        if rig.idle:
+            break
+        first += rig.drain()
+    ctx.prop("first_transaction_over", rig.idle)
+    pending = rig.h.num_packets_ready if hasattr(rig.h, "num_packets_ready") else None
+    o = rig.put(dst="/dst/second.bin")
+    ctx.prop("accepted", o.exc is None and o.ret is True, lambda: {"sig": f"{rigs.exc_name(o.exc)} / {o.ret}"})
+    first += o.pdus + rig.drain()  # what get_next_packet() hands out after the put request
+    ctx.covered("put_with_pdus_pending")
+    k1 = [pdu_kind(p) for p in first]
+    ctx.prop("first_stream_complete", k1[:1] == ["MD"] and k1[-1:] == ["EOF"] and k1.count("EOF") == 1,
+             lambda: {"sig": f"PDUs of the first transaction after the early put request: {k1}"})
+    second = []
+    for _ in range(6):
+        o = rig.sm()
+        ctx.prop("no_exception", o.exc is None, lambda: {"sig": rigs.exc_sig(o.exc)})
+        second += o.pdus
+        if rig.idle:
+            break
+    k2 = [pdu_kind(p) for p in second]
+    ctx.prop("second_stream_complete", k2[:1] == ["MD"] and k2[-1:] == ["EOF"] and rig.idle,
+             lambda: {"sig": f"PDUs of the second transaction: {k2}"})
+    if first and second:
+        ctx.prop("ids_distinct", first[0].transaction_seq_num.value != second[0].transaction_seq_num.value)
+
+
+def h_refused_then_other(ctx):
+    """a refused put request (unknown destination) of one kind, then a valid request of ANOTHER kind on the same
+    handler: nothing of the refused request may linger (handler idle AND reusable)"""
+    from spacepackets.cfdp import MessageToUserTlv
+    w = World(ctx)
+    ids = Ids(2, 2)
+    L = 8
+    rig = SrcRig(w, ids, mode=UNACK, closure=False, seg_len=L, max_packet_len=64)
+    sa = ctx.int("SA", 0, 2 * L)
+    sb = ctx.int("SB", 0, 2 * L)
+    rig.fs.add_source_file("/src/a.bin", sa)
+    rig.fs.add_source_file("/src/file.bin", sb)
+    k1 = ctx.pick("refused_kind", ["file", "metadata_only"])
+    k2 = ctx.pick("valid_kind", ["file", "metadata_only"])
+    msgs = [MessageToUserTlv(b"hello")]
+    if k1 == "file":
+        o = rig.put(src="/src/a.bin", dst="/dst/a.bin", dest_id=ids.other_entity)
+    else:
+        o = rig.put(src=None, dst=None, msgs=msgs, dest_id=ids.other_entity)
+    ctx.prop("unknown_destination_raises", isinstance(o.exc, NoRemoteEntityCfgFound),
+             lambda: {"sig": f"unknown destination -> {rigs.exc_name(o.exc)} / {o.ret}"})
+    ctx.prop("refused_request_leaves_handler_idle", rig.idle and not o.pdus)
+    o = rig.put() if k2 == "file" else rig.put(src=None, dst=None, msgs=msgs)
+    ctx.prop("valid_request_accepted", o.exc is None and o.ret is True,
+             lambda: {"sig": f"valid put request -> {rigs.exc_name(o.exc)} / {o.ret}"})
+    pdus = []
+    for _ in range(6):
+        o = rig.sm()
+        ctx.prop("no_exception", o.exc is None, lambda: {"sig": rigs.exc_sig(o.exc)})
+        pdus += o.pdus
+        if rig.idle:
+            break
+    kinds = [pdu_kind(p) for p in pdus]
+    ctx.covered(f"{k1}->{k2}")
+    if k2 == "metadata_only":
+        ctx.prop("follow_up_as_requested", kinds == ["MD"], lambda: {"sig": f"metadata-only request after a refused {k1} request: {kinds}"})
+        return
+    total = 0
+    for p in pdus:
+        if pdu_kind(p) == "FD":
+            total = total + sym_len(p.file_data)
+    eofs = [p for p in pdus if pdu_kind(p) == "EOF"]
+    ctx.prop("follow_up_as_requested",
+             sand(kinds[:1] == ["MD"], len(eofs) == 1, pdus[0].file_size == sb, total == sb,
+                  eofs[0].file_size == sb if eofs else False),
+             lambda: {"sig": f"file request after a refused {k1} request: stream {kinds} does not carry the requested file"})
+
+
 def plan(tier):
     q = tier == "quick"
     specs = [Spec("admission-and-parameters", "vf.harness.c19:h_admission", {}, twin_share=0.1,
@@ -259,6 +348,10 @@ def plan(tier):
     specs.append(Spec("sequence-numbers/one-handler", "vf.harness.c19:h_seq", {"shared": False}, twin_share=1.0))
     specs.append(Spec("sequence-numbers/two-handlers-one-provider", "vf.harness.c19:h_seq", {"shared": True},
                       twin_share=1.0))
+    specs.append(Spec("put-request-before-the-last-pdus-are-retrieved", "vf.harness.c19:h_put_before_last_pdus_retrieved", {},
+                      twin_share=1.0, obligations=["put_with_pdus_pending"]))
+    specs.append(Spec("refused-request-then-another-kind", "vf.harness.c19:h_refused_then_other", {}, twin_share=0.5,
+                      obligations=["metadata_only->file", "file->file", "file->metadata_only"]))
     specs.append(Spec("same-request-object-twice", "vf.harness.c19:h_same_request_again", {}, twin_share=1.0,
                       obligations=["resubmitted"]))
     for reuse in (False, True):
